@@ -1,5 +1,6 @@
 import Driver.Linq
 import Driver.Gen
+import Driver.Meas
 open Lean Tangelo Tangelo.Driver Tangelo.Codec
 
 structure DState where
@@ -11,6 +12,7 @@ def handle (st : DState) (j : Json) : DState × Json :=
   | .str "sim" => (st, simOp j)
   | .str "semeq" => (st, semEqOp j)
   | .str "backend_sim" => (st, backendSimOp j)
+  | .str "branch" => (st, branchOp j)
   | .str "exp_pauliword" => (st, expPauliwordOp j)
   | .str "exp_qubitop" => (st, expQubitOp j)
   | .str "atoms" =>
